@@ -337,3 +337,26 @@ Proof.
   - unfold run_stage. apply ceq_of_presult. apply query_stage_rel. apply Forall2_DIok_equiv. exact HF.
   - intros [r1 x1] [r2 x2] H. cbn [ceq fst snd] in *. split; [exact H|reflexivity].
 Qed.
+
+(* ------------------------------------------------------------------ knut balance: the table and the bytes *)
+From Knut Require Import Model.Table Proofs.OrderRender.
+
+Theorem balance_table_perm cfg sds1 sds2 :
+  Permutation sds1 sds2 -> sd_syntactic sds1 -> no_conflicting_prices sds1 ->
+  ceq eq (balance_table cfg sds1) (balance_table cfg sds2).
+Proof.
+  intros P Hs Hn. unfold balance_table.
+  eapply ceq_bind; [apply balance_report_perm; eassumption|].
+  intros [r1 p1] [r2 p2] [H E]. cbn [fst snd ceq] in *. subst p2.
+  apply render_report_eq. exact H.
+Qed.
+
+Theorem balance_bytes_perm cfg sds1 sds2 :
+  Permutation sds1 sds2 -> sd_syntactic sds1 -> no_conflicting_prices sds1 ->
+  ceq eq (balance_csv cfg sds1) (balance_csv cfg sds2) /\
+  forall tc, ceq eq (balance_text cfg tc sds1) (balance_text cfg tc sds2).
+Proof.
+  intros P Hs Hn. pose proof (balance_table_perm cfg sds1 sds2 P Hs Hn) as H.
+  unfold balance_csv, balance_text. split; [|intros tc];
+    (eapply ceq_bind; [exact H|]); intros t1 t2 <-; cbn [ceq]; reflexivity.
+Qed.
